@@ -283,6 +283,51 @@ FRAME_ASSUME = WIRE_ASSUME + [
     "out-of-bounds writes are observed by guard pages at the buffer edges and a 0xA5 canary inside the buffer",
 ]
 
+# --------------------------------------------------------------------------- C04
+def depipe_trace(ctx):
+    cargo_build(ctx, "h_core")
+    n = ctx.pick(150, 3000)
+    cmds = [([hbin("h_core"), "depipe", "--n", str(n), "--seed", str(ctx.seed * 1000 + i)], f"depipe-{i}.ndjson") for i in range(NSH)]
+    return trace_stage(ctx, "depipe", cmds, "Trace_De")
+
+
+def run_c04(ctx):
+    tlc_mc(ctx, "depipe", "MC_DePipe", tmpl("MC_DePipe", MaxIn=ctx.pick(4, 5), MaxScratch=ctx.pick(4, 5), Depth=ctx.pick(6, 7)))
+    wire_vectors(ctx)
+    wire_trace(ctx)
+    depipe_trace(ctx)
+
+
+def sel_c04(mm):
+    t = set(mm.get("tags", []))
+    if mm["stage"] == "depipe":
+        return True
+    return bool(t & {"panic", "leaves", "refused", "crash"})
+
+
+# --------------------------------------------------------------------------- C11
+def io_trace(ctx):
+    cargo_build(ctx, "h_core")
+    n = ctx.pick(60, 1200)
+    cmds = [([hbin("h_core"), "io", "--n", str(n), "--seed", str(ctx.seed * 1000 + i)], f"io-{i}.ndjson") for i in range(NSH)]
+    return trace_stage(ctx, "io", cmds, "Trace_Io")
+
+
+def run_c11(ctx):
+    for reqs, sl in ctx.pick([("ReqA", 8), ("ReqB", 6)], [("ReqA", 9), ("ReqB", 8), ("ReqC", 11)]):
+        tlc_mc(ctx, f"transport-{reqs}", "MC_Transport", tmpl("MC_Transport", StreamLen=sl, MaxPiece=3, Requests=reqs))
+    tlc_mc(ctx, "depipe", "MC_DePipe", tmpl("MC_DePipe", MaxIn=ctx.pick(4, 5), MaxScratch=ctx.pick(4, 5), Depth=ctx.pick(6, 7)))
+    io_trace(ctx)
+    wire_trace(ctx)      # the to_io/to_eio/from_io/from_eio pairings of the round-trip trace run over short-piece transports too
+
+
+def sel_c11(mm):
+    if mm["stage"] == "io":
+        return True
+    ev = mm["event"]
+    return mm["stage"] == "wire" and (ev.get("enc") in ("to_io", "to_eio") or ev.get("dec") in ("from_io", "from_eio")) and "rt" in mm.get("tags", [])
+
+
 # --------------------------------------------------------------------------- properties
 
 
@@ -306,6 +351,21 @@ def run_c03(ctx):
 
 
 REGISTRY = {
+    "C11": dict(run=run_c11, select=sel_c11, assumptions=WIRE_ASSUME + [
+                    "a reader that reports an error at offset f is equivalent to a stream that ends at f (both become DeserializeUnexpectedEnd); model-checked in MC_Transport",
+                    "ErrorKind::Interrupted retries are std's read_exact contract and are not injected",
+                    "embedded-io 0.6 in the quick tier; the 0.4 adapter shares the same flavour code through the eio module alias"],
+                rule="io_ser events: every fault offset 0..len (short outputs) x piece schedules x std::io/embedded-io, incl. writers reporting full as Ok(0); "
+                     "io_de events: 1..3 messages on one stream x scratch sizes 0..need+1 x a fault at every byte offset x piece schedules, damaged streams; "
+                     "each event carries the per-message results, reader positions, scratch remainders and borrowed offsets"),
+    "C04": dict(run=run_c04, select=sel_c04, assumptions=WIRE_ASSUME + [
+                    "out-of-bounds reads are observed by guard pages flush against either end of the input (page-crossing accesses only)",
+                    "allocation is measured by a counting global allocator around the postcard call only (the scripted transport does not allocate while measured); "
+                    "bound = 8 * element size * (input + scratch bytes + 16) + 256; maps are measured but not asserted (outside the claim)"],
+                rule="df_* events: every pop/try_take_n/size_hint/finalize the real Deserializer issues on a recording slice flavour for valid, truncated, "
+                     "length-attacked, damaged and random inputs, plus direct call sequences with counts up to usize::MAX, validated step by step against the "
+                     "cursor machine; alloc events: 12 concrete std target types x claimed lengths (powers of two up to 2^63, usize::MAX, remaining+-1) x "
+                     "slice/std::io/embedded-io entry; dec/rt events of the wire trace for panics, borrowed-leaf offsets and refused requests"),
     "C05": dict(run=run_c05, select=sel_c05, assumptions=FRAME_ASSUME,
                 rule="serb events: one per (value, stack) with the outcome for every storage (slice flush against a guard page, heapless, "
                      "growable, Extend, size counter) at every capacity 0..len+2 (short outputs) or around the boundaries (long outputs)"),
